@@ -23,7 +23,14 @@ class C06(Check):
         weights = dict(tree.DEFAULT_CFG["weights"])
         weights.update({"create_uid": 8, "copy": 8, "remove": 4, "values": 0, "flag": 0, "metadata": 0, "file": 0,
                         "rename": 1, "move": 2, "pg_add": 3, "reopen": 3})
-        cfg = {"weights": weights, "max_ops": 22}
+        # constructive prefix: an object with two property groups, copied into the second workspace; there the first
+        # group of the copy is deleted and the object copied again (one group identifier free, the other in use)
+        two_pgs = [{"op": "object", "cls": "Points", "parent": 0, "name": "p", "geom": {"n": 3, "g": [1, 2, 3, 4]}, "deferred": False},
+                   {"op": "data", "obj": 0, "kind": "float", "assoc": "VERTEX", "vals": [1, 2, 3], "name": "a", "short": 0, "pg": "pg1"},
+                   {"op": "data", "obj": 0, "kind": "int", "assoc": "VERTEX", "vals": [1, 2, 3], "name": "b", "short": 0, "pg": "pg2"},
+                   {"op": "copy", "who": 0, "to": 0, "children": True, "clear": False, "ws": 1, "twice": False,
+                    "again_after_remove": False, "again_after_pg_delete": True}]
+        cfg = {"weights": weights, "max_ops": 22, "prefixes": [[], [], [], two_pgs]}
         if tier == "thorough":
             cfg.update({"max_ops": 40, "object_classes": tree.F.OBJECT_CLASSES,
                         "group_classes": tree.F.GROUP_CLASSES})
